@@ -396,8 +396,23 @@ def c18_session(job) -> List[Dict[str, Any]]:
          'raised': False, 'header': header}
     games = None
     try:
-        games = PbnParser().parse_all(io.StringIO(text))
+        reader = PbnParser()
+        how = sum(map(ord, str(tid))) % 3
+        if how == 1:
+            # the parser object has read another export before, to its end
+            reader.parse_all(io.StringIO('[Event "old"]\n[Board "77"]\n[Dealer "S"]\n\n'))
+        elif how == 2:
+            # ... or only peeked at its first game / gave up on a damaged game
+            try:
+                next(reader.parse_stream(io.StringIO(
+                    '[Event "old"]\n[Site "old site"]\n[Board "77"]\n[West "w"]\n[Dealer "S"]\n'
+                    '[Declarer "W"]\n[Contract "7NTXX"]\n[Result "0"]\n\n[Event "old2"]\n[Board "78"]\n')))
+                reader.parse_board_settings(io.StringIO('[Board "nodeal"]\n[Dealer "N"]\n\n[Board "x"]\n'))
+            except Exception:  # noqa
+                pass
+        games = reader.parse_all(io.StringIO(text))
         e['games'] = [[[k, v] for k, v in g.items()] for g in games]
+        e['reader'] = ['fresh', 'reused', 'reused-after-abandoned-stream'][how]
     except Exception as ex:  # noqa
         e['raised'] = True
         e['msg'] = f'{type(ex).__name__}: {ex}'[:120]
